@@ -12,6 +12,7 @@ EXTENDS Limb14, BtpeTable, H2peTable, PdTable, MtTable, ChengTable, Rej64Table, 
 
 TH == "TIER" \in DOMAIN IOEnv /\ IOEnv.TIER = "thorough"
 BTabX == IF TH THEN BTabT ELSE BTab
+BTabHX == IF TH THEN BTabHT ELSE BTabH
 HTabX == IF TH THEN HTabT ELSE HTab
 PTabX == IF TH THEN PTabT ELSE PTab
 MTabX == IF TH THEN MTabT ELSE MTab
@@ -30,6 +31,10 @@ Rule == /\ Ev.res = "Ok"
                                    /\ Near14(Ev.T, a.frac, 64 - 28)
              \* regions 3 / 4 (exponential tails): after the anchor's first word the second words returning y form the interval
              \* [exp(lambda (y - x_l)), min(exp(lambda (y + 1 - x_l)), f(y)/f(m) / ((u - p2) lambda))) (mirrored on the right): both ends to 2^-28
+             \* the same for huge n with a moderate mode (proposal as y - m)
+             [] Ev.op = "btpe2h" -> LET a == BTabHX[Ev.case].r2[Ev.k] IN
+                                    /\ Ev.accepted_at_zero /\ Ev.dy = a.dy
+                                    /\ Near14(Ev.T, a.frac, 64 - 28)
              [] Ev.op = "btpet" -> LET a == BTabX[Ev.case].rt[Ev.k] IN
                                    /\ Ev.probe_ok
                                    /\ Near14(Ev.lo, a.lo, 64 - 28) /\ Near14(Ev.hi, a.hi, 64 - 28)
